@@ -355,20 +355,42 @@ def c19_r2(ctx):
     lf = repo.func("schema:load_graphql_files_from_path")
     def mk(is_dir):
         return lambda e: (is_dir if norm(e) == "path.is_dir()" else None)
-    o = Interp(lf, mk(True)).run()
-    good = len(o) == 1 and norm(strip_pre(o[0].deref(o[0].value)) if isinstance(o[0].value, ast.Name) else strip_pre(o[0].value)) in ("'\\n'.join(schema_list)", "'\\n'.join([read_graphql_file(f) for f in sorted(walk_graphql_files(path))])")
-    if good and "schema_list" in norm(o[0].value):
-        sl = o[0].env.get("schema_list")
-        good = sl is not None and norm(sl) == "[read_graphql_file(f) for f in sorted(walk_graphql_files(path))]"
+    from ..util import comp_struct
+    o = [x for x in Interp(lf, mk(True)).run() if x.kind == "return"]
+    good = False
+    if len(o) == 1 and o[0].value is not None:
+        v = strip_pre(o[0].deref(o[0].value)) if isinstance(o[0].value, ast.Name) else strip_pre(o[0].value)
+        if isinstance(v, ast.Call) and isinstance(v.func, ast.Attribute) and v.func.attr == "join" and is_const(v.func.value, "\n") and len(v.args) == 1:
+            arg = strip_pre(o[0].deref(v.args[0])) if isinstance(v.args[0], ast.Name) else v.args[0]
+            good = comp_struct(arg) in (("read_graphql_file($0)", [("sorted(walk_graphql_files(path))", [])]), ("read_graphql_file(path=$0)", [("sorted(walk_graphql_files(path=path))", [])]))
     ctx.check(good, key(lf, "directory"), f"a directory must be read as the newline-joined contents of its sorted GraphQL files; got {[x.text() for x in o]}", lf.loc(), okmsg="directory -> '\\n'.join(read(f) for f in sorted(files))")
     o = Interp(lf, mk(False)).run()
     ctx.check(len(o) == 1 and norm(o[0].value) == "read_graphql_file(path.resolve())", key(lf, "file"), f"single file: {[x.text() for x in o]}", lf.loc(), okmsg="single file -> its content")
     wf = repo.func("schema:walk_graphql_files")
-    env = {st.targets[0].id: st.value for st in wf.node.body if isinstance(st, ast.Assign) and isinstance(st.targets[0], ast.Name)}
-    ext = env.get("extensions")
-    good = isinstance(ext, (ast.Tuple, ast.List, ast.Set)) and sorted(c.value for c in ext.elts) == [".gql", ".graphql", ".graphqls"]
-    lp = [n for n in wf.node.body if isinstance(n, ast.For)]
-    good = good and len(lp) == 1 and norm(lp[0].iter) in ("path.glob('**/*')", "path.rglob('*')") and norm(lp[0].body[0].test) == f"{norm(lp[0].target)}.suffix in extensions"
+    # what the generator yields: every element of the recursive listing whose suffix is one of the three (decided on the
+    # symbolic outcomes, so a local tuple, a module constant or a defaulted parameter are the same thing)
+    seen_sets = []
+
+    def mkw(match):
+        def atom(e):
+            ee = strip_pre(e)
+            if isinstance(ee, ast.Compare) and len(ee.ops) == 1 and isinstance(ee.ops[0], ast.In) and norm(ee.left).endswith(".suffix") and norm(ee.left).startswith("<elem>("):
+                rhs = ee.comparators[0]
+                if isinstance(rhs, (ast.Tuple, ast.List, ast.Set)) and all(isinstance(c, ast.Constant) for c in rhs.elts):
+                    seen_sets.append(sorted(c.value for c in rhs.elts))
+                return match
+            return None
+        return atom
+    good = True
+    for match in (True, False):
+        outs = [x for x in Interp(wf, mkw(match)).run() if any("loop body once" in t for t in x.trace)]
+        ys = sorted({norm(strip_pre(y)) for x in outs for y in x.yields})
+        want_y = [] if not match else None
+        if match:
+            good = good and len(ys) == 1 and ys[0] in ("<elem>(path.glob('**/*'))", "<elem>(path.rglob('*'))")
+        else:
+            good = good and ys == []
+    good = good and bool(seen_sets) and all(sset == [".gql", ".graphql", ".graphqls"] for sset in seen_sets)
     ctx.check(good, key(wf, "walk"), "GraphQL files are not found recursively by the three documented suffixes", wf.loc(), okmsg="recursive walk over .graphql/.graphqls/.gql")
     for fk in ("schema:get_graphql_schema_from_path", "schema:get_graphql_queries"):
         f2 = repo.func(fk)
